@@ -370,7 +370,8 @@ def gen_range_reads(rng, tier, opfmt, payloads=None, extra_n=None):
 
 
 def gen_C02(rng, tier):
-    return full_section_battery("read_all s={s} e={e}") + gen_range_reads(rng, tier, "read_all s={s} e={e}")
+    return (full_section_battery("read_all s={s} e={e}") + rebuilt_index_reads_battery(tier, ["read_all s={s} e={e}"])
+            + gen_range_reads(rng, tier, "read_all s={s} e={e}"))
 
 
 def gen_C14(rng, tier):
@@ -631,6 +632,23 @@ def gen_C04(rng, tier):
     out = marker_word_battery(["files", "read_all s=U e=U", "len", "range"])
     out += payload_marker_battery(["files", "read_all s=U e=U", "len", "range", "last_line"])
     out += mixed_session_battery(rng, ["files", "len", "range"])
+    # the same with downsample caches configured: reopening at every fill level of a bucket, with time
+    # gaps inside the unfinished bucket, must succeed and preserve everything
+    for B in (3, 10):
+        for p in (4, 0):
+            h = Hist(p, caches=[B])
+            h.new()
+            t = 1000
+            for i in range(3 * B + 2):
+                h.push(t, rng)
+                t += rng.choice([7, 7, MAXD + 3])
+                h.op("files")
+                h.reopen()
+                h.op("files")
+                h.op("len")
+                h.op("range")
+            if marker_free(p, h.ts):
+                out.append((f"reopen-with-caches-B{B}-p{p}", h.script()))
     obs = ["read_all s=U e=U", "len", "range", "last_line", "payload_size", "is_empty"]
     for h0 in _histories(rng, tier, PAYLOADS_ALL):
         h = Hist(h0.p, hdr=h0.hdr)
@@ -924,6 +942,8 @@ def gen_C05(rng, tier):
     out = marker_word_battery(["files", "read_all s=U e=U", "len"])
     # index lagging by its last entry while the last section header straddles a search window
     out += window_sweep_battery(tier, [8] if tier == "quick" else [8, 4, 0])
+    # recovered files must answer bounded reads exactly too (a rebuilt index with wrong offsets)
+    out += rebuilt_index_reads_battery(tier, ["read_all s={s} e={e}"])
     nh = 10 if tier == "quick" else 80
     pls = [0, 1, 2, 3, 4, 5, 8, 204]
     for i in range(nh):
@@ -1102,6 +1122,38 @@ def chunk_end_battery(tier):
                     h.op("files")
             if marker_free(p, [1000, 1000 + base + 100002]):
                 out.append((f"chunk-end-p{p}-k{k}", h.script()))
+    return out
+
+
+def rebuilt_index_reads_battery(tier, ops_fmt):
+    """files spanning several 16 KiB buffers in which every line opens a section (so sections are cut by
+    every buffer boundary), the index lost / cut / one entry behind, then BOUNDED reads on and around
+    section starts all over the file: an index rebuilt with wrong byte offsets leaves full reads,
+    len and range intact and only shows here"""
+    out = []
+    for p in ([0, 4, 8] if tier == "quick" else [0, 1, 2, 3, 4, 8]):
+        h = big_sparse(p, lines_for_bytes(p, 3 * 16384 + 700, True), seed=p + 61)
+        secs = [t for t, _ in h.sections]
+        picks = sorted(set([secs[1], secs[len(secs) // 3], secs[len(secs) // 2], secs[2 * len(secs) // 3], secs[-2], secs[-1]]))
+        H = header_len(p, 0)
+        h.op("close")
+        h.op("save 0")
+        for ix in ("rm index", f"cut index {4 + 16 * (len(secs) // 2) + 5}", f"cut index {4 + 16 * (len(secs) - 1)}",
+                   f"cut data {H + h.off - 1}"):
+            h.op("restore 0")
+            h.op(ix)
+            if ix.startswith("cut data"):
+                h.op("rm index")
+            h.open()
+            for t in picks:
+                if ix.startswith("cut data") and t == secs[-1]:
+                    continue
+                for o in ops_fmt:
+                    h.op(o.format(s=f"I:{t}", e=f"I:{t}"))
+                    h.op(o.format(s=f"I:{t}", e="U") if t >= secs[-2] else o.format(s=f"I:{t}", e=f"I:{t + 70000}"))
+                    h.op(o.format(s=f"E:{t - 70000}", e=f"E:{t + 1}"))
+            h.op("close")
+        out.append((f"rebuilt-index-reads-p{p}", h.script()))
     return out
 
 
